@@ -179,7 +179,11 @@ class Check:
         ovp = os.path.join(self.work, "overlay.json")
         json.dump({"Replace": ov}, open(ovp, "w"))
         self.harness_bin = os.path.join(self.work, "verifharness")
-        cmd = ["go", "build", "-tags", "verif", "-overlay", ovp, "-o", self.harness_bin]
+        # never let the go command rewrite /repo/go.mod or go.sum: work on copies
+        shutil.copy2(os.path.join(REPO, "go.mod"), os.path.join(self.work, "go.mod"))
+        if os.path.exists(os.path.join(REPO, "go.sum")):
+            shutil.copy2(os.path.join(REPO, "go.sum"), os.path.join(self.work, "go.sum"))
+        cmd = ["go", "build", "-tags", "verif", "-overlay", ovp, "-modfile", os.path.join(self.work, "go.mod"), "-o", self.harness_bin]
         if self.cfg.get("race") and self.tier == "thorough":
             cmd.insert(2, "-race")
         rc, out = sh(cmd + ["./internal/verifharness"], cwd=REPO, env=dict(GOENV, CGO_ENABLED="1" if "-race" in cmd else GOENV["CGO_ENABLED"]), timeout=900)
@@ -411,7 +415,10 @@ def decide_and_report(chk, replay_mode=False):
         json.dump(ev, open(os.path.join(VERIF, "evidence", pid + ".json"), "w"), indent=1)
     if violations == 0:
         print("OK property=%s tier=%s seed=%d theorems=%d cases=%d nontrivial=%d wall=%.1fs" % (pid, chk.tier, chk.seed, ob, chk.evals, chk.distinct_nontrivial, time.time() - chk.t0))
-    shutil.rmtree(chk.work, ignore_errors=True)
+    if not os.environ.get("VERIF_KEEP"):
+        shutil.rmtree(chk.work, ignore_errors=True)
+    else:
+        print("kept work dir", chk.work)
     return 1 if violations else 0
 
 
